@@ -55,6 +55,10 @@ CHECKS = {
  'C14': dict(sec='2/C14', tech='explicit-state BFS over all update histories (all compositions into block-aligned pieces incl. empty pieces, then a closing piece) on real hash objects, states deduplicated by (chaining value, bit counter, pad flag); confluence and reference-digest oracles (engine H); exhaustive cut positions for Nilsimsa (engine D)',
              text='For 16 hashes and messages of 0..3/4 blocks plus 5 tail classes every history feed(0..3 blocks)* close is explored on a live object; after each piece the state must equal that of a fresh object fed the same prefix in one piece and the bit counter must equal the bits fed; every closing digest must equal the reference digest. Nilsimsa: every 1- and 2-cut of every message of length 0..12/16.',
              note='Trusted: hashlib / reference hashes for the final digest. Known finding (recorded, not repaired): BLAKE2 closing with an empty final piece after whole blocks.'),
+
+ 'C04': dict(sec='2/C04', tech='exhaustive enumeration of width x rate x bit order x bit length x output length x container shape (engine P) and explicit-state BFS over duplex call sequences (engine H) against a bit-level reference sponge bound to hashlib',
+             text='All 7 widths; every rate 1..b-1 for b<=50 (thorough b<=200) and named rates incl. non-byte rates for the larger widths; both bit orders; every bit length 0..2r+2 (or every residue class near the rate boundaries over 0..2 blocks); 7 output lengths incl. several squeezes; longer containers and bitlen=0; SHA3-224..512 and SHAKE128/256 on every byte length to 2 rate blocks against hashlib; module singletons; all duplex call sequences to depth 3 on 4 (7) geometries with the 25 lanes as state.',
+             note='Trusted: hashlib SHA-3/SHAKE and mc/refs/keccak.py (derived round constants / rho offsets, bound to hashlib and a b=200 vector each run).'),
 }
 
 PENDING = {}
